@@ -313,54 +313,6 @@ theorem quorumTable_model (f n : Nat) :
   simp only [Nat.zero_add, List.getElem_map, List.getElem_range] at this
   simp [this.2.2]
 
-
-/-! ### the model's validation IS the code's (`Gen.Src`, regenerated on every run)
-
-The limit comparisons and the `seen`-map tests of `validateAutomationObservation` / `validateAutomationOutcome`, in source
-order.  (The per-result rules of `validateCheckResult` / `validateUpkeepProposal` stay inside `validCheckResult` /
-`validProposal`; the flush conditions of `Reports` are tied in Props/C04 — `flush_matches_source`,
-`ensureDefaults_matches_source` — which `reports_count_le_max` goes through.  The limits the factory advertises and the
-`QuorumTwoFPlusOne` argument sit in a composite literal / a call into libocr, outside the translator: they are pinned by
-the extractor's site expectations and checked by Ω on every instance.) -/
-
-theorem validObservation_matches_source (ctx : Ctx) (lim : Limits) (o : Observation) :
-    validObservation ctx lim o =
-      (!Gen.Src.c03ObsHistoryTooLong o.blockHistory.length lim.obsBlockHistory &&
-       scanSeen Gen.Src.c03ObsBlockNumberSeen [] (o.blockHistory.map (·.number)) &&
-       !Gen.Src.c03ObsPerformablesTooMany o.performable.length lim.obsPerformables &&
-       o.performable.all (validCheckResult ctx) &&
-       scanSeen Gen.Src.c03ObsPerformableSeen [] (o.performable.map (·.workID)) &&
-       !Gen.Src.c03ObsProposalsTooMany o.proposals.length lim.obsCondProposals lim.obsLogProposals &&
-       o.proposals.all (validProposal ctx) &&
-       scanSeen Gen.Src.c03ObsProposalSeen [] (o.proposals.map (·.workID)) &&
-       !Gen.Src.c03ObsCondProposalsTooMany
-          (o.proposals.filter (fun p => ctx.utg p.upkeepID = .condition)).length lim.obsCondProposals &&
-       !Gen.Src.c03ObsLogProposalsTooMany
-          (o.proposals.filter (fun p => ctx.utg p.upkeepID = .log)).length lim.obsLogProposals) := by
-  rw [scanSeen_nodup Gen.Src.c03ObsBlockNumberSeen (fun _ => rfl), scanSeen_nodup Gen.Src.c03ObsPerformableSeen (fun _ => rfl),
-    scanSeen_nodup Gen.Src.c03ObsProposalSeen (fun _ => rfl)]
-  simp only [validObservation, Gen.Src.c03ObsHistoryTooLong, Gen.Src.c03ObsPerformablesTooMany,
-    Gen.Src.c03ObsProposalsTooMany, Gen.Src.c03ObsCondProposalsTooMany, Gen.Src.c03ObsLogProposalsTooMany, not_gt_eq_le]
-
-theorem validOutcome_matches_source (ctx : Ctx) (lim : Limits) (o : Outcome) :
-    validOutcome ctx lim o =
-      (!Gen.Src.c03OutcomeAgreedTooMany o.agreed.length lim.agreedLimit &&
-       o.agreed.all (validCheckResult ctx) &&
-       scanSeen Gen.Src.c03OutcomeAgreedSeen [] (o.agreed.map (·.workID)) &&
-       !Gen.Src.c03OutcomeRoundsTooMany o.surfaced.length lim.roundHistory &&
-       o.surfaced.all (fun round => !Gen.Src.c03OutcomeRoundTooLong round.length lim.perRound) &&
-       o.surfaced.flatten.all (validProposal ctx) &&
-       scanSeen Gen.Src.c03OutcomeProposalSeen [] (o.surfaced.flatten.map (·.workID))) := by
-  rw [scanSeen_nodup Gen.Src.c03OutcomeAgreedSeen (fun _ => rfl), scanSeen_nodup Gen.Src.c03OutcomeProposalSeen (fun _ => rfl)]
-  simp only [validOutcome, Gen.Src.c03OutcomeAgreedTooMany, Gen.Src.c03OutcomeRoundsTooMany,
-    Gen.Src.c03OutcomeRoundTooLong, not_gt_eq_le]
-
-/-- the report count bound goes through the flush condition of the working tree (tied in Props/C04) -/
-theorem reports_flush_matches_source (cfg : C04.Cfg) (cur : List CheckResult) (gas : Nat) (r : CheckResult) :
-    C04.flush cfg cur gas r =
-      Gen.Src.reportsFlush cur.length cfg.batch gas r.gas cfg.overhead cfg.gasLimit ((cur.map (·.upkeepID)).contains r.upkeepID) :=
-  C04.flush_matches_source cfg cur gas r
-
 /-! ### non-vacuity -/
 
 private def xr (w : String) : CheckResult :=
